@@ -151,3 +151,62 @@ def involution_lemmas():
             ("reciprocal twice is the identity where defined: 1/(1/a) = a for a != 0", z3.Implies(a != 0, rec(rec(a)) == a)),
             ("a simultaneous swap twice is the identity: swap(swap(a, b)) = (a, b)",
              z3.And(*[x == y for x, y in zip((lambda p: (p[1], p[0]))((lambda p: (p[1], p[0]))((a, b))), (a, b))]))]
+
+
+# ------------------------------------------------------------ layout of the flattened Hessian: reader (C05)
+def _fish_reader_region(fnode):
+    """from `fish = np.zeros((n, n))` to the last plain assignment to `fish` before the symbolic part of convert_params"""
+    import ast as _a
+    start = end = None
+    for k, s in enumerate(fnode.body):
+        if isinstance(s, _a.Assign) and len(s.targets) == 1 and getattr(s.targets[0], "id", None) == "fish":
+            if start is None:
+                start = k
+            end = k
+        elif isinstance(s, _a.Assign) and isinstance(s.targets[0], _a.Subscript) and getattr(s.targets[0].value, "id", None) == "fish":
+            end = k
+        elif start is not None and any(getattr(t, "id", None) == "param_list" for t in getattr(s, "targets", [])):
+            break
+    if start is None:
+        return None
+    return fnode.body[start:end + 1]
+
+
+def fish_reader_contract():
+    """simplifier.convert_params rebuilds the symmetric matrix from the flattened upper triangle it is given:
+         fish[r, c] = fish[c, r] = fish_meas[TRIST(n, r) + c - r]   for 0 <= r <= c < max_param   (max_param = number of parameters handed in)."""
+    import z3 as _z
+    from pyvc.lemmas import TRIST, trist_axioms
+    from pyvc.values import T as T_, VInt as VInt_, H2D, as_float, fsame
+    N, K = _z.Int("n"), _z.Int("max_param")
+
+    def mk_fm(eng, st):
+        v = eng.fresh(T_.arr(T_.float), "fish_meas", st)
+        st.heap[v.addr].len = N * (N + 1) / 2
+        return v
+
+    def setup(eng, st, args):
+        from pyvc import models_np2
+        models_np2.install(eng)
+        st.env["n"], st.env["max_param"] = VInt_(N), VInt_(K)
+        eng.axioms.extend(trist_axioms(N))
+        eng.axioms.append((N * (N + 1)) % 2 == 0)
+
+    def requires(S, a):
+        return [("1 <= max_param <= n", _z.And(1 <= K, K <= N))]
+
+    def ensures(S, a, res):
+        f = S.st.heap[S.var("fish").addr]
+        if not isinstance(f, H2D):
+            return [("fish is a matrix", _z.BoolVal(False))]
+        fm = S.seq(a["fish_meas"])
+        r, c = _z.Int(fresh_name("r!sk")), _z.Int(fresh_name("c!sk"))
+        lo, hi = _z.If(r <= c, r, c), _z.If(r <= c, c, r)
+        return [("fish is max_param x max_param", _z.And(f.rows == K, f.cols == K)),
+                ("fish[r, c] = fish[c, r] = fish_meas[TRIST(n, min) + max - min]: the symmetric matrix whose upper triangle was flattened row by row",
+                 _z.Implies(_z.And(0 <= r, r < K, 0 <= c, c < K), fsame(as_float(f.get(r, c)), as_float(fm.get(TRIST(N, lo) + hi - lo)))))]
+
+    c = Contract("convert_params", {"fish_meas": mk_fm}, requires=requires, ensures=ensures, setup=setup, region=_fish_reader_region,
+                 raises=lambda S, a, e: _z.BoolVal(False))
+    c.region_name = "Hessian layout reader"
+    return c
